@@ -9,11 +9,11 @@ import (
 func init() {
 	Register(&Property{
 		ID: "C22",
-		Decides: "(R22.1) OperationHashes returns ops[:collected]; an entry is collected only for a record that decoded and passed the filter, as (operation hash, fact hash) of that record, and the iteration continues after collecting only while collected != limit; " +
+		Decides: "(R22.1) OperationHashes returns the collected list (ops[:collected] of a buffer, or the list grown by append); an entry is collected only for a record that decoded and passed the filter, as (operation hash, fact hash) of that record, and the iteration continues after collecting only while collected != limit; " +
 			"(R22.2) success is reported only after the broken ordered keys and the filtered-out / superseded operations were handed to the removal routines; " +
 			"(R22.3) the removal buffers grow by append (no indexed store beyond a fixed length); " +
 			"(R22.4) SetOperation writes only when the operation key does not exist yet (idempotence), test and write in one exclusive section of the pool's set lock; " +
-			"(R22.5) for a fact found again the superseded entry's operation (not the newly selected one) is queued for removal, the entry is cut out of the collected list and every remembered position above it is shifted down.; (R22.k) every leveldb key builder carries each of its parameters in full under its own prefix constant; (R22.j) jobs handed to a worker read only captured variables that the submitter does not assign again (no job works on a later batch/slot than the one it was created for); (R22.7) the pool is scanned only for a limit of at least one and the result buffer is not sized by the caller's limit up front; (R22.8) reaching the limit does not cut the oldest-first scan off before newer operations of selected facts — R22.7's buffer clause and R22.8 are violated today, known findings; after every cut of a superseded entry the walk over all remembered positions runs to its end before the next entry is collected",
+			"(R22.5) for a fact found again the superseded entry's operation (not the newly selected one) is queued for removal, the entry is cut out of the collected list and every remembered position above it is shifted down.; (R22.k) every leveldb key builder carries each of its parameters in full under its own prefix constant; (R22.j) jobs handed to a worker read only captured variables that the submitter does not assign again (no job works on a later batch/slot than the one it was created for); (R22.7) the pool is scanned only for a limit of at least one and the result buffer is not sized by the caller's limit up front; (R22.8) reaching the limit does not cut the oldest-first scan off before newer operations of selected facts — R22.8 is violated today, a known finding; after every cut of a superseded entry the walk over all remembered positions runs to its end before the next entry is collected",
 		NotDecided: "that the leveldb iteration order is insertion order ('most recently added'); the removal routines' own batching; cache coherence of the operation cache.",
 		Run:        runC22,
 	})
